@@ -17,6 +17,34 @@ Theorem C05_pn_decode_exact : forall pn largestAcked largest,
 Proof. intros; split; [apply lenForHeader_ge2 | apply decode_sender; assumption]. Qed.
 Print Assumptions C05_pn_decode_exact.
 
+(** (g) within the permitted reordering window: the packet may be OVERTAKEN.  The length the
+    sender chose from its largest acknowledged number tolerates a receiver that has already
+    opened packets up to [reorder_tolerance len = 2^(8 len - 1) - 2] numbers ahead of this one
+    (2 bytes: 32766, 3 bytes: 8388606, 4 bytes: 2147483646); one further and the decoder
+    returns a different number (second theorem; for pn >= 2^32 so that no clamp hides it). *)
+Theorem C05_pn_decode_reordered : forall pn largestAcked largest,
+  0 <= pn < 2 ^ 62 -> -1 <= largestAcked -> pn - largestAcked <= 2 ^ 31 ->
+  largestAcked <= largest <= pn + reorder_tolerance (lenForHeader pn largestAcked) ->
+  decodePN (lenForHeader pn largestAcked) largest (truncatePN (lenForHeader pn largestAcked) pn) = pn.
+Proof. exact decode_sender_reordered. Qed.
+Print Assumptions C05_pn_decode_reordered.
+
+Theorem C05_pn_reorder_tolerance_exact : forall pn largestAcked,
+  0 <= pn < 2 ^ 62 - 2 ^ 33 -> -1 <= largestAcked -> 2 ^ 32 <= pn ->
+  decodePN (lenForHeader pn largestAcked) (pn + reorder_tolerance (lenForHeader pn largestAcked) + 1)
+           (truncatePN (lenForHeader pn largestAcked) pn) <> pn.
+Proof. exact decode_beyond_tolerance. Qed.
+Print Assumptions C05_pn_reorder_tolerance_exact.
+
+(** the auditor's numbers: pn 70000, largest acknowledged 69990, 2 bytes: fine up to pn + 32766 *)
+Example C05_pn_reorder_example :
+  lenForHeader 70000 69990 = 2 /\ reorder_tolerance 2 = 32766 /\
+  decodePN 2 (70000 + 1000) (truncatePN 2 70000) = 70000 /\
+  decodePN 2 (70000 + 32766) (truncatePN 2 70000) = 70000 /\
+  decodePN 2 (70000 + 32767) (truncatePN 2 70000) = 135536.
+Proof. vm_compute. repeat split; reflexivity. Qed.
+Print Assumptions C05_pn_reorder_example.
+
 (** General window form (RFC 9000 A.3) for every length 1..4. *)
 Theorem C05_pn_decode_window : forall len largest pn,
   valid_len len -> 0 <= pn < 2 ^ 62 -> -1 <= largest ->
@@ -161,7 +189,7 @@ Theorem C05_pack_unpack :
     (forall pn kp ad p, length (aead_seal pn kp ad p) = (length p + 16)%nat) ->
     forall (long : bool) (tcode kp : Z) (mid : list Z) (pn la largest : Z) (ack frames : list Z) (extra : nat),
       (if long then 0 <= tcode <= 3 else kp = 0 \/ kp = 1) ->
-      0 <= pn < 2 ^ 62 -> -1 <= la -> la <= largest <= pn -> pn - la <= 2 ^ 31 ->
+      0 <= pn < 2 ^ 62 -> -1 <= la -> la <= largest <= pn + reorder_tolerance (lenForHeader pn la) -> pn - la <= 2 ^ 31 ->
       ack ++ frames <> [] ->
       let pnLen := lenForHeader pn la in
       let padding := pad_len (Z.to_nat pnLen) (length ack + length frames) extra in
@@ -194,7 +222,7 @@ Theorem C05_long_datagram_roundtrip :
     forall (ty v : Z) (src dst tok : list Z) (pn la largest : Z) (ack frames : list Z) (extra : nat) (rest : list Z),
       valid_version v -> pn_type ty ->
       zlen dst <= W_MaxConnIDLen -> zlen src <= W_MaxConnIDLen -> zlen tok <= maxVarInt8 ->
-      0 <= pn < 2 ^ 62 -> -1 <= la -> la <= largest <= pn -> pn - la <= 2 ^ 31 ->
+      0 <= pn < 2 ^ 62 -> -1 <= la -> la <= largest <= pn + reorder_tolerance (lenForHeader pn la) -> pn - la <= 2 ^ 31 ->
       ack ++ frames <> [] ->
       let pnLen := lenForHeader pn la in
       let payload := packet_payload ack (pad_len (Z.to_nat pnLen) (length ack + length frames) extra) frames in
